@@ -12,6 +12,12 @@ import JsonV.Spec.Utf16Order
 import JsonV.Lemmas.CmpL
 import JsonV.Lemmas.CmpSort
 import JsonV.Gen.Straight
+import JsonV.Model.Canon
+import JsonV.Lemmas.CanonForm
+import JsonV.Lemmas.CanonParse
+import JsonV.Lemmas.CanonRound
+import JsonV.Lemmas.CanonLex
+import JsonV.Props.C12
 
 namespace JsonV.Props.C13
 open JsonV JsonV.Model.Utf8 JsonV.Model.Compare JsonV.Model.Reorder JsonV.Spec.Utf16Order
@@ -191,5 +197,309 @@ example :
     WF a ∧ WF b ∧ ([a, b].map (·.name)).Nodup ∧ isSorted [a, b] = false ∧ isSorted [b, a] = true ∧
       memberLe b a = true ∧ memberLe a b = false := by
   refine ⟨⟨by decide, by decide⟩, ⟨by decide, by decide⟩, by decide, by decide, by decide, by decide, by decide⟩
+
+/-! ## Value.Canonicalize as a whole (model: Model/Canon.lean, tied by the `cmp canon` correspondence)
+
+`canonicalize fp b` = tokenize (C12) → parse into a tree → `strict` (I-JSON) → `respell` every literal →
+`sortTree` (the reordering above, innermost objects first) → compact rendering (C12).  `fp : FloatCodec` is the
+parameter standing for strconv.ParseFloat and strconv's shortest digits; the structure carries no laws, each
+theorem names the law it needs as a hypothesis.  All statements are for ALL byte strings / ALL trees. -/
+
+section Canonicalize
+open JsonV.Canon JsonV.Fmt JsonV.Model.Quote JsonV.Spec.StringSpec
+open JsonV.Lemmas.CanonTree JsonV.Lemmas.CanonAtom JsonV.Lemmas.CanonSort JsonV.Lemmas.CanonForm JsonV.Lemmas.CanonParse
+open JsonV.Lemmas.CanonRound JsonV.Lemmas.CanonLex JsonV.Lemmas.CanonNest
+
+/-- What a successful call returns: the compact rendering of the canonical tree of a strict input. -/
+theorem canonicalize_eq_some (fp : FloatCodec) (b c : Bytes) :
+    canonicalize fp b = some c ↔ ∃ t, parseText b = some t ∧ strict t = true ∧ c = renderCompact (canonTree fp t).toks := by
+  unfold canonicalize
+  cases hp : parseText b with
+  | none => simp
+  | some t =>
+    by_cases hs : strict t = true
+    · simp only [hs, if_true, Option.some.injEq]
+      constructor
+      · intro h; exact ⟨t, rfl, hs, h.symm⟩
+      · rintro ⟨t', e, _, rfl⟩; cases e; rfl
+    · simp only [hs, Bool.false_eq_true, if_false]
+      constructor
+      · intro h; cases h
+      · rintro ⟨t', e, hs', _⟩; cases e; exact absurd hs' hs
+
+/-- `canon_sorted`: in the canonical tree the members of every object, at every depth, are strictly increasing in
+the UTF-16 code-unit order of their unescaped names. -/
+theorem canon_sorted (fp : FloatCodec) (t : JV) (h : strict t = true) : SortedT (canonTree fp t) :=
+  (good_sortTree _ (namesOK_respell fp t h)).1
+
+/-- `canon_strings_minimal`: every string literal of the output (member names included) is the RFC 8785 §3.2.2.2
+serialisation `canonQuote` of the text of an input literal, that text is well-formed UTF-8, and the output literal
+unquotes to exactly that text (so it is `canonQuote` of its own meaning). -/
+theorem canon_strings_minimal (fp : FloatCodec) (t : JV) (h : strict t = true) (r : Bytes)
+    (hr : Tok.str r ∈ (canonTree fp t).toks) :
+    ∃ lit, Tok.str lit ∈ t.toks ∧ r = canonQuote (unq lit) ∧ valid (unq lit) = true ∧
+      appendUnquote r = (unq lit, Err.ok) ∧ r = canonQuote (appendUnquote r).1 := by
+  have hm := (toks_canonTree fp t).mem_iff.mp hr
+  obtain ⟨k, hk, e⟩ := List.mem_map.mp hm
+  cases k with
+  | str lit =>
+    simp only [canonAtom, Tok.str.injEq] at e
+    have ok := strict_toks t h lit hk
+    subst e
+    refine ⟨lit, hk, canonStr_minimal lit, ((strOK_iff lit).mp ok).2, unquote_canonStr lit ok, ?_⟩
+    rw [unquote_canonStr lit ok]; exact canonStr_minimal lit
+  | num _ => simp [canonAtom] at e
+  | bo => simp [canonAtom] at e
+  | eo => simp [canonAtom] at e
+  | ba => simp [canonAtom] at e
+  | ea => simp [canonAtom] at e
+  | null => simp [canonAtom] at e
+  | tru => simp [canonAtom] at e
+  | fls => simp [canonAtom] at e
+
+/-- `canon_numbers_ecma`: every number literal of the output comes from an input literal `lit` and is the
+ECMA-262 Number::toString layout of the shortest decimal of `numValue fp lit` (ParseFloat, −0 → 0, ±Inf → ±MaxFloat64)
+— except that an integer literal of fewer than 16 characters (other than `-0`) is copied verbatim (the shortcut of
+`ReformatNumber`; that such a literal is already its own ECMAScript form is an IEEE-754 fact, validated only).
+The only law used: the digit generator returns well-formed decompositions. -/
+theorem canon_numbers_ecma (fp : FloatCodec)
+    (hfp : ∀ f, JsonV.Lemmas.NumFloat.WFD (fp.shortest f).1 (fp.shortest f).2)
+    (t : JV) (r : Bytes) (hr : Tok.num r ∈ (canonTree fp t).toks) :
+    ∃ lit, Tok.num lit ∈ t.toks ∧
+      ((shortInt lit = true ∧ r = lit) ∨
+       (shortInt lit = false ∧
+         r = JsonV.Spec.Ecma.numberToString (numValue fp lit).neg (fp.shortest (numValue fp lit)).1
+               (fp.shortest (numValue fp lit)).2)) := by
+  have hm := (toks_canonTree fp t).mem_iff.mp hr
+  obtain ⟨k, hk, e⟩ := List.mem_map.mp hm
+  cases k with
+  | num lit =>
+    simp only [canonAtom, Tok.num.injEq] at e
+    refine ⟨lit, hk, ?_⟩
+    rw [canonNum_eq] at e
+    by_cases hs : shortInt lit = true
+    · rw [if_pos hs] at e; exact Or.inl ⟨hs, e.symm⟩
+    · rw [if_neg hs] at e
+      exact Or.inr ⟨by simpa using hs, by rw [← e, append_ecma fp _ (hfp _)]⟩
+  | str _ => simp [canonAtom] at e
+  | bo => simp [canonAtom] at e
+  | eo => simp [canonAtom] at e
+  | ba => simp [canonAtom] at e
+  | ea => simp [canonAtom] at e
+  | null => simp [canonAtom] at e
+  | tru => simp [canonAtom] at e
+  | fls => simp [canonAtom] at e
+
+/-- The law `canon_idem` needs from the float parameter: a canonical number literal is re-spelled as itself
+(ParseFloat ∘ shortest digits round-trips).  A property of strconv, validated by the harness (fixed-point check). -/
+def NumStable (fp : FloatCodec) : Prop := ∀ lit, canonNum fp (canonNum fp lit) = canonNum fp lit
+
+/-- `canon_idem` (tree level): the canonical tree is strict again and is its own canonical tree. -/
+theorem canon_tree_idem (fp : FloatCodec) (hn : NumStable fp) (t : JV) (h : strict t = true) :
+    strict (canonTree fp t) = true ∧ canonTree fp (canonTree fp t) = canonTree fp t := by
+  have good := good_sortTree _ (namesOK_respell fp t h)
+  have perm := toks_canonTree fp t
+  have hstr : ∀ r, Tok.str r ∈ (canonTree fp t).toks → strOK r = true := by
+    intro r hr
+    obtain ⟨lit, hl, _, _, _, _⟩ := canon_strings_minimal fp t h r hr
+    obtain ⟨k, hk, e⟩ := List.mem_map.mp (perm.mem_iff.mp hr)
+    cases k with
+    | str lit' =>
+      simp only [canonAtom, Tok.str.injEq] at e
+      rw [← e]; exact strOK_canonStr lit' (strict_toks t h lit' hk)
+    | num _ => simp [canonAtom] at e
+    | bo => simp [canonAtom] at e
+    | eo => simp [canonAtom] at e
+    | ba => simp [canonAtom] at e
+    | ea => simp [canonAtom] at e
+    | null => simp [canonAtom] at e
+    | tru => simp [canonAtom] at e
+    | fls => simp [canonAtom] at e
+  refine ⟨strict_of _ hstr good.2, ?_⟩
+  have hfix : ∀ k ∈ (canonTree fp t).toks, canonAtom fp k = k := by
+    intro k hk
+    obtain ⟨k0, hk0, e⟩ := List.mem_map.mp (perm.mem_iff.mp hk)
+    subst e
+    cases k0 with
+    | str lit => simp only [canonAtom]; rw [canonStr_idem lit (strict_toks t h lit hk0)]
+    | num lit => simp only [canonAtom]; rw [hn lit]
+    | bo => rfl
+    | eo => rfl
+    | ba => rfl
+    | ea => rfl
+    | null => rfl
+    | tru => rfl
+    | fls => rfl
+  show sortTree (respell fp (canonTree fp t)) = canonTree fp t
+  rw [respell_fixed fp _ hfix]
+  exact sortTree_fixed _ good.2 good.1
+
+/-- `canon_class` (tree level): canonically equivalent strict trees have the same canonical tree. -/
+theorem canon_tree_class (fp : FloatCodec) (t u : JV) (ht : strict t = true) (he : CanonEquiv fp t u) :
+    canonTree fp t = canonTree fp u :=
+  sortTree_permEq _ _ (namesOK_respell fp t ht) he
+
+/-- `canon_class`: two texts whose trees are canonically equivalent — they differ only in whitespace, in the order
+of members, in the spelling of strings with the same text and in the spelling of numbers with the same value —
+canonicalize to identical bytes. -/
+theorem canon_class (fp : FloatCodec) (b₁ b₂ : Bytes) (t u : JV) (h₁ : parseText b₁ = some t) (h₂ : parseText b₂ = some u)
+    (st : strict t = true) (su : strict u = true) (he : CanonEquiv fp t u) :
+    canonicalize fp b₁ = canonicalize fp b₂ ∧ (canonicalize fp b₁).isSome = true := by
+  unfold canonicalize
+  rw [h₁, h₂]
+  simp only [st, su, if_true, canon_tree_class fp t u st he, Option.isSome_some, and_self]
+
+/-- String literals with the same text are interchangeable … -/
+theorem respell_congr_str (fp : FloatCodec) (a b : Bytes) (h : unq a = unq b) :
+    canonAtom fp (.str a) = canonAtom fp (.str b) := by
+  simp only [canonAtom]; rw [canonStr_congr a b h]
+
+/-- … in particular literals with the same RFC 8259 meaning (C11's `StringLiteral`, via `unquote_meaning`). -/
+theorem respell_congr_meaning (fp : FloatCodec) (a b m : Bytes) (ha : StringLiteral a m) (hb : StringLiteral b m) :
+    canonAtom fp (.str a) = canonAtom fp (.str b) := by
+  simp only [canonAtom]; rw [canonStr_of_meaning a b m ha hb]
+
+/-- The IEEE-754 fact behind the `n < 16` shortcut, as a law of the float parameter: an integer literal of fewer
+than 16 characters is already the canonical spelling of its value.  Validated by the harness, not proved. -/
+def ShortIntFixed (fp : FloatCodec) : Prop := ∀ lit, shortInt lit = true → fp.append (numValue fp lit) = lit
+
+/-- … and number literals with the same float64 value are interchangeable (relative to `ShortIntFixed`). -/
+theorem respell_congr_num (fp : FloatCodec) (hs : ShortIntFixed fp) (a b : Bytes) (h : numValue fp a = numValue fp b) :
+    canonAtom fp (.num a) = canonAtom fp (.num b) := by
+  have e : ∀ lit, canonNum fp lit = fp.append (numValue fp lit) := by
+    intro lit
+    rw [canonNum_eq]
+    by_cases c : shortInt lit = true
+    · rw [if_pos c, hs lit c]
+    · rw [if_neg c]
+  simp only [canonAtom]; rw [e a, e b, h]
+
+/-- The hypotheses are satisfiable: `{"b":"A", "a" : 1}` parses to a strict tree whose tokens are those of
+`t`, and `u` = `{"a":1,"b":"A"}` is strict as well. -/
+example :
+    let t : JV := .obj [([0x22, 0x62, 0x22], .atom (.str [0x22, 0x5c, 0x75, 0x30, 0x30, 0x34, 0x31, 0x22])),
+                        ([0x22, 0x61, 0x22], .atom (.num [0x31]))]
+    let u : JV := .obj [([0x22, 0x61, 0x22], .atom (.num [0x31])), ([0x22, 0x62, 0x22], .atom (.str [0x22, 0x41, 0x22]))]
+    (parseText [0x7b, 0x22, 0x62, 0x22, 0x3a, 0x22, 0x5c, 0x75, 0x30, 0x30, 0x34, 0x31, 0x22, 0x2c, 0x20, 0x22, 0x61, 0x22,
+        0x20, 0x3a, 0x20, 0x31, 0x7d]).map (fun x => (x.toks, strict x)) = some (t.toks, true) ∧ strict u = true := by
+  decide +kernel
+
+/-- A law of the float parameter used by `canon_no_ws`: what `AppendFloat` emits is lexically one JSON number
+(C10 proves `float_is_number` for well-formed decompositions against its own recogniser; the bridge to the
+tokenizer's `scanNum` is validated by the harness's token scanner, not proved). -/
+def NumLex (fp : FloatCodec) : Prop := ∀ f, (Tok.num (fp.append f)).valid = true
+
+/-- `canon_no_ws`: the output is the bare concatenation of its tokens and the `,` / `:` the grammar requires, and
+none of these lexemes other than a string literal contains a whitespace byte. -/
+theorem canon_no_ws (fp : FloatCodec) (hl : NumLex fp) (b c : Bytes) (h : canonicalize fp b = some c) :
+    ∃ ts, c = ((punct [.top0] ts).map Lex.bytes).flatten ∧
+      ∀ l ∈ punct [.top0] ts, (∀ raw, l ≠ .tok (.str raw)) → ∀ x ∈ l.bytes, isWs x = false := by
+  obtain ⟨t, hp, _, rfl⟩ := (canonicalize_eq_some fp b c).mp h
+  have hv := (parseText_wellNested b t hp).2.1
+  refine ⟨(canonTree fp t).toks, flatWs_compact _ _, ?_⟩
+  intro l hlm hs
+  refine lexeme_no_ws l ?_ hs
+  rcases punct_mem _ _ l hlm with ⟨d, rfl⟩ | ⟨k, hk, rfl⟩
+  · rfl
+  · obtain ⟨k0, hk0, e⟩ := List.mem_map.mp ((toks_canonTree fp t).mem_iff.mp hk)
+    have v0 := hv k0 hk0
+    subst e
+    cases k0 with
+    | str raw => exact absurd rfl (hs _)
+    | num lit =>
+      show (Tok.num (canonNum fp lit)).valid = true
+      rw [canonNum_eq]
+      split
+      · exact v0
+      · exact hl _
+    | bo => rfl
+    | eo => rfl
+    | ba => rfl
+    | ea => rfl
+    | null => rfl
+    | tru => rfl
+    | fls => rfl
+
+/-- `canon_roundtrip`: the output text tokenizes (C12's tokenizer) to exactly the tokens of the canonical tree and
+parses back to that tree — so every statement above about the tokens of `canonTree fp t` is a statement about
+the tokens of the returned bytes. -/
+theorem canon_roundtrip (fp : FloatCodec) (hl : NumLex fp) (b c : Bytes) (h : canonicalize fp b = some c) :
+    ∃ t, parseText b = some t ∧ strict t = true ∧ c = renderCompact (canonTree fp t).toks ∧
+      tokenize c = some (canonTree fp t).toks ∧ parseText c = some (canonTree fp t) := by
+  obtain ⟨t, hp, hs, rfl⟩ := (canonicalize_eq_some fp b c).mp h
+  refine ⟨t, hp, hs, rfl, ?_⟩
+  have hw := (parseText_wellNested b t hp)
+  have hparse : parse t.toks = some t := by
+    unfold parseText at hp
+    rw [hw.1] at hp
+    exact hp
+  obtain ⟨hacc, hatoms⟩ := accepts_canonTree fp t.toks t hparse hw.2.2
+  have hvalid : ∀ k ∈ (canonTree fp t).toks, k.valid = true := by
+    intro k hk
+    obtain ⟨k0, hk0, e⟩ := List.mem_map.mp ((toks_canonTree fp t).mem_iff.mp hk)
+    have v0 := hw.2.1 k0 hk0
+    subst e
+    cases k0 with
+    | str raw => exact canonStr_valid raw
+    | num lit =>
+      show (Tok.num (canonNum fp lit)).valid = true
+      rw [canonNum_eq]
+      split
+      · exact v0
+      · exact hl _
+    | bo => rfl
+    | eo => rfl
+    | ba => rfl
+    | ea => rfl
+    | null => rfl
+    | tru => rfl
+    | fls => rfl
+  have htok : tokenize (renderCompact (canonTree fp t).toks) = some (canonTree fp t).toks :=
+    JsonV.Props.C12.tokenize_renderCompact _ ⟨hvalid, hacc⟩
+  refine ⟨htok, ?_⟩
+  unfold parseText
+  rw [htok]
+  exact parse_toks_self _ hatoms
+
+/-- `canon_idem`: canonicalizing the output again succeeds and returns the same bytes. -/
+theorem canon_idem (fp : FloatCodec) (hn : NumStable fp) (hl : NumLex fp) (b c : Bytes)
+    (h : canonicalize fp b = some c) : canonicalize fp c = some c := by
+  obtain ⟨t, _, hs, hc, _, hp⟩ := canon_roundtrip fp hl b c h
+  obtain ⟨hs', hid⟩ := canon_tree_idem fp hn t hs
+  unfold canonicalize
+  rw [hp]
+  simp only [hs', if_true, hid, hc]
+
+/-- The laws named as hypotheses above are jointly satisfiable (here by the degenerate codec that reads every
+literal as 0; for strconv itself they are validated by the harness): so none of the theorems is vacuous. -/
+example :
+    let fp : FloatCodec := ⟨fun _ => ⟨false, false, 0, 0⟩, fun _ => ([], 0)⟩
+    NumLex fp ∧ (∀ f, JsonV.Lemmas.NumFloat.WFD (fp.shortest f).1 (fp.shortest f).2) ∧ NumStable fp := by
+  refine ⟨?_, ?_, ?_⟩
+  · intro f
+    show (Tok.num (JsonV.Model.Number.appendFloat f.neg [] 0)).valid = true
+    cases f.neg <;> decide
+  · intro f
+    show JsonV.Lemmas.NumFloat.WFD [] 0
+    exact ⟨by simp, by simp, fun _ => rfl, by omega, by omega⟩
+  · intro lit
+    have e : ∀ l, canonNum ⟨fun _ => ⟨false, false, 0, 0⟩, fun _ => ([], 0)⟩ l = if shortInt l then l else [48] := by
+      intro l; rw [canonNum_eq]; rfl
+    rw [e lit]
+    split
+    · next h => rw [e lit, if_pos h]
+    · exact e [48]
+
+/-- and the model accepts and canonicalizes a concrete text: `{ "a":"A", "b" : [ true ] }` ↦ `{"a":"A","b":[true]}`
+(an input whose members are out of order goes through `List.mergeSort`, which `decide` cannot unfold; the
+`cmp canon` correspondence exercises those). -/
+example :
+    canonicalize ⟨fun _ => ⟨false, false, 0, 0⟩, fun _ => ([], 0)⟩
+      [0x7b, 0x20, 0x22, 0x61, 0x22, 0x3a, 0x22, 0x5c, 0x75, 0x30, 0x30, 0x34, 0x31, 0x22, 0x2c, 0x20, 0x22, 0x62, 0x22, 0x20, 0x3a, 0x20,
+       0x5b, 0x20, 0x74, 0x72, 0x75, 0x65, 0x20, 0x5d, 0x20, 0x7d]
+    = some [0x7b, 0x22, 0x61, 0x22, 0x3a, 0x22, 0x41, 0x22, 0x2c, 0x22, 0x62, 0x22, 0x3a, 0x5b, 0x74, 0x72, 0x75, 0x65, 0x5d, 0x7d] := by
+  decide +kernel
+
+end Canonicalize
 
 end JsonV.Props.C13
